@@ -5,7 +5,7 @@ import contextlib
 import io
 import z3
 from . import core
-from .core import SInt, SBool, SBytes, SStr, SChar, SymTable, EngineLimit, mk_bool, mk_int, _bv, _t8
+from .core import modelled, SInt, SBool, SBytes, SStr, SChar, SymTable, EngineLimit, mk_bool, mk_int, _bv, _t8
 
 _installed = []      # (module, name, had, original)
 _MISSING = object()
@@ -62,10 +62,10 @@ class IntShim(metaclass=_IntMeta):
             return x
         if isinstance(x, SBool):
             return core.s_ite(x, 1, 0)
-        if isinstance(x, (SStr, SChar)):
-            return _parse_int(SStr.lift(x), base or 10)
         if hasattr(x, '__symx_int__'):
             return x.__symx_int__()
+        if isinstance(x, (SStr, SChar)):
+            return _parse_int(SStr.lift(x), base or 10)
         return int(x) if base is None else int(x, base)
 
     @staticmethod
@@ -73,6 +73,9 @@ class IntShim(metaclass=_IntMeta):
         if isinstance(b, SBytes):
             if signed:
                 raise EngineLimit("signed from_bytes")
+            org = getattr(b, '_origin', None)
+            if org is not None and org[1] == len(b.b) and org[2] == byteorder:
+                return org[0]
             items = b.b if byteorder == 'little' else b.b[::-1]      # little endian order
             if not items:
                 return 0
@@ -98,13 +101,13 @@ class IntShim(metaclass=_IntMeta):
 def _parse_int(s, base):
     """int(text) for symbolic text of digits (no sign/whitespace/underscore support: those paths are cut)"""
     if len(s) == 0:
-        raise ValueError("invalid literal for int()")
+        raise modelled(ValueError("invalid literal for int()"))
     acc = 0
     for c in s.c:
         if isinstance(c, int):
             ch = chr(c)
             if ch not in '0123456789abcdefABCDEF'[:10 if base == 10 else 22]:
-                raise ValueError("invalid literal for int()")
+                raise modelled(ValueError("invalid literal for int()"))
             d = int(ch, base)
         else:
             if base == 10:
@@ -113,7 +116,7 @@ def _parse_int(s, base):
                     # '+', '-', ' ', '_' and unicode digits are accepted by int(); outside the claim
                     if bool((c == 43) | (c == 45) | (c == 32) | (c == 95) | ((c >= 9) & (c <= 13)) | (c > 127)):
                         core._cur.cut("int() of text with sign/whitespace/underscore/non-ascii")
-                    raise ValueError("invalid literal for int()")
+                    raise modelled(ValueError("invalid literal for int()"))
                 d = c - 48
             elif base == 16:
                 isd = (c >= 48) & (c <= 57)
@@ -122,7 +125,7 @@ def _parse_int(s, base):
                 if not (isd | isl | isu):
                     if bool((c == 43) | (c == 45) | (c == 32) | (c == 95) | ((c >= 9) & (c <= 13)) | (c > 127)):
                         core._cur.cut("int() of text with sign/whitespace/underscore/non-ascii")
-                    raise ValueError("invalid literal for int()")
+                    raise modelled(ValueError("invalid literal for int()"))
                 d = mk_int(z3.If(c.t <= 57, c.t - 48, z3.If(c.t >= 97, c.t - 87, c.t - 55)), 0, 15)
             else:
                 raise EngineLimit("int(text, base=%r)" % base)
@@ -165,8 +168,7 @@ class BytesShim(metaclass=_BytesMeta):
         cs = [_bv(c) for c in x.c]
         if (mk_bool(z3.And([ishex(c) for c in cs])) if cs else True):
             if len(cs) % 2:
-                raise ValueError('non-hexadecimal number found in fromhex() arg')
-
+                raise modelled(ValueError('non-hexadecimal number found in fromhex() arg'))
             def nib(c):
                 return z3.If(c <= 57, c - 48, z3.If(c >= 97, c - 87, c - 55))
             out = []
@@ -175,9 +177,7 @@ class BytesShim(metaclass=_BytesMeta):
             return SBytes(out)
         if mk_bool(z3.Or([isws(c) for c in cs])):
             core._cur.cut("bytes.fromhex of text containing whitespace")
-        raise ValueError('non-hexadecimal number found in fromhex() arg')
-
-
+        raise modelled(ValueError('non-hexadecimal number found in fromhex() arg'))
 class _StrMeta(type):
     def __instancecheck__(cls, o):
         return isinstance(o, (str, SStr, SChar))
@@ -206,7 +206,7 @@ class SDecStr(SStr):
 
     def __symx_int__(self):
         if self.suffix:
-            raise ValueError("invalid literal for int()")
+            raise modelled(ValueError("invalid literal for int()"))
         return self.i
 
     def __len__(self):
@@ -231,7 +231,10 @@ class SDecStr(SStr):
                 return SDecStr(self.i, self.suffix[:k.stop])
         else:
             if k == -1:
-                return SChar(self.i % 10 + 48) if self.i.lo >= 0 else (_ for _ in ()).throw(EngineLimit("negative rendering"))
+                if self.i.lo < 0:
+                    raise EngineLimit("negative rendering")
+                d = self.i % 10          # last decimal digit: a real character (the caller may test `ch in "..."`)
+                return chr(48 + (d.concretize() if isinstance(d, SInt) else d))
             if k == 0 and self.i.lo >= 0 and self.i.hi <= 9:
                 return SChar(self.i + 48)
         raise EngineLimit("indexing a decimal rendering")
@@ -273,7 +276,7 @@ def ord_shim(x):
         return x.c[0]
     if isinstance(x, SBytes):
         if len(x) != 1:
-            raise TypeError("ord() expected a character")
+            raise modelled(TypeError("ord() expected a character"))
         return x[0]
     return ord(x)
 
